@@ -20,6 +20,12 @@ type oracleState struct {
 	lastUpdRev map[string]updRevObs
 	// ownedRevCount etc. are computed from the store on demand.
 	migrated    map[string]*migration
+	// modelCur: per set UID, the current revision as the reference model of C12
+	// tracks it: it follows a status write only when that write was entitled to move
+	// it (so a status corrupted earlier does not blind the partition rule of C07).
+	modelCur map[string]string
+	// modelCurRV: resource version of the set right after the write that last set modelCur
+	modelCurRV map[string]int
 	helperEvals int
 	eventEvals  int
 	recEvals    int
@@ -42,7 +48,7 @@ type updRevObs struct {
 }
 
 func newOracleState() *oracleState {
-	return &oracleState{scaleIn: map[string]*scaleInWatch{}, lastUpdRev: map[string]updRevObs{}, migrated: map[string]*migration{}}
+	return &oracleState{scaleIn: map[string]*scaleInWatch{}, lastUpdRev: map[string]updRevObs{}, migrated: map[string]*migration{}, modelCur: map[string]string{}, modelCurRV: map[string]int{}}
 }
 
 // eventCtx records what the event handlers did for one delivered event.
